@@ -116,7 +116,7 @@ def enumerate_cases(tier: str):
     for version in (None, "1.4", "1.5", "2.0", "2.1", "2.2"):
         stored = {"1": {"node_id": 1, "node_type": 17, "protocol_version": "2.0", "sketch_name": "", "sketch_version": "", "battery_level": 0, "heartbeat": 0,
                         "sleeping": False, "reboot": False,
-                        "children": {"0": {"child_id": 0, "child_type": 6, "description": "", "values": {str(t): f"v{t}" for t in types}},
+                        "children": {"0": {"child_id": 0, "child_type": 6, "description": "", "values": {str(t): (f"v{t}", "x" * 26, "é" * 20, "L" * 300, "", "a;b")[t % 6] for t in types}},
                                      "1": {"child_id": 1, "child_type": 3, "description": "", "values": {}}}}}
         ops = [["rx", f"1;0;2;0;{t};\n"] for t in types]
         ops += [op for t in types for op in (["rx", f"1;1;2;0;{t};\n"], ["rx", f"1;1;1;0;{t};w{t}\n"], ["rx", f"1;1;2;1;{t};\n"])]
